@@ -598,7 +598,7 @@ _SHOWN = ("Format", "minValue", "maxValue", "minStep", "ValidValues", "maxLen")
 # override operations and the lead has not ruled on getter answers (design/audit/char.md, section 3).  True: the
 # unrepaired tree then yields `C09:stored-not-a-valid-value:after-read` with a replay, the tree with
 # design/fixes/C09-getter-valid-values.patch is clean.
-JUDGE_GETTER_ANSWERS = False
+JUDGE_GETTER_ANSWERS = True
 GETTER_UNDECLARED = [0]  # getter answers stored / reported outside the declared valid values (counted, see judge_case)
 
 
